@@ -23,6 +23,7 @@ import yaml
 from nemoguardrails.colang.v2_x.lang.colang_ast import Flow, Import
 from nemoguardrails.colang.v2_x.lang.grammar.load import load_lark_parser
 from nemoguardrails.colang.v2_x.lang.transformer import ColangTransformer
+from nemoguardrails.colang.v2_x.lang.utils import scan_colang_line
 from nemoguardrails.colang.v2_x.runtime.errors import ColangSyntaxError
 from nemoguardrails.utils import CustomDumper
 
@@ -77,13 +78,12 @@ class ColangParser:
         in_docstring = False
         for i in range(len(lines)):
             line = lines[i]
-            quotes = line.count('"""')
-            if quotes % 2 == 1:
-                in_docstring = not in_docstring
-            elif quotes == 0 and not in_docstring:
+            # (triple quotes inside a comment or a string literal don't delimit a docstring)
+            _code, has_docstring, in_docstring = scan_colang_line(line, in_docstring)
+            if not has_docstring:
                 # We make sure to capture the correct indentation level and use that.
                 lines[i] = re.sub(
-                    r"^( +)\.\.\.[ \t]*(#.*)?$",
+                    r"^( +)\.\.\.[ \t\f]*(#.*)?$",
                     EXPANSION,
                     line,
                 )
